@@ -145,6 +145,8 @@ func (e *Engine) resetPath(prefix []Decision) {
 	e.clock = 0
 	e.poolPrivate = nil
 	e.syncMaps = nil
+	e.fs = nil
+	e.fsTmpN = 0
 	e.par = nil
 	e.mutexes = map[*Value]*mutexSt{}
 	e.auxN = 0
